@@ -283,6 +283,9 @@ func builtinMakeValidator(env *lisp.LEnv, args *lisp.LVal) *lisp.LVal {
 		if lname.Str != "lisp:typedef" {
 			return lisp.ErrorConditionf(BadArgs, "First argument must resolve to a string or typedef")
 		}
+		if ud := lname.UserData(); ud.Type != lisp.LSExpr || len(ud.Cells) != 2 {
+			return lisp.ErrorConditionf(BadArgs, "First argument is not a well-formed typedef")
+		}
 		name = lname.UserData().Cells[0].Str
 		taggedConstraints := []*lisp.LVal{typeValidator}
 		taggedConstraints = append(taggedConstraints, constraints...)
